@@ -194,6 +194,11 @@ func (c09) Run(tp *Tape, opt RunOpt) *RunOut {
 		cfg.StarveFrom = tp.Draw(LaneWork, 20)
 		cfg.StarveLen = 5 + tp.Draw(LaneWork, 60)
 	}
+	if tp.Chance(LaneWork, 1, 4) {
+		// PCT policy instead of the random walk: priorities with 0-2 change points
+		cfg.PCTDepth = 1 + tp.Draw(LaneWork, 3)
+		cfg.PCTSpan = []int{30, 120, 600}[tp.Draw(LaneWork, 3)]
+	}
 	s := NewSim(tp, cfg)
 	e := NewEnv()
 	h := &Harness{S: s}
@@ -516,7 +521,7 @@ func (c09) Run(tp *Tape, opt RunOpt) *RunOut {
 	out.Nontrivial = len(s.tasks) >= 2 && s.Switches > 1 && windows > 0
 	if opt.Full {
 		out.Sample = map[string]interface{}{"atoms": nAtoms, "threads": nThreads, "program": rendering,
-			"cfg": map[string]int{"Q": cfg.Q, "WindowBias": cfg.WindowBias, "StarveID": cfg.StarveID}}
+			"cfg": map[string]int{"Q": cfg.Q, "WindowBias": cfg.WindowBias, "StarveID": cfg.StarveID, "PCTDepth": cfg.PCTDepth}}
 	}
 	return out
 }
